@@ -126,8 +126,9 @@ TEXTS = {
                  'in-place quantization, disjoint insertions and insertions re-targeted onto an enclosing earlier one (last '
                  'instruction of a nested list). Partially overlapping consumer lists (not emitted by the generator) and the '
                  'nestedness of generated lists: groups at any depths are nested or disjoint and every consumer-side '
-                 'instruction lists one group (theorems); the ORDER of the emitted list and the producer-side instructions '
-                 'are not proved -- instead the full hypothesis set of the last-instruction theorem is DECIDED in Coq '
+                 'instruction lists one group, emitted by non-decreasing depth, so a later consumer list lies inside an '
+                 'earlier one or is disjoint from it (theorems); the producer-side instructions and the vertical rewrites\' '
+                 'effect on the producer\'s list are not proved -- instead the full hypothesis set of the last-instruction theorem is DECIDED in Coq '
                  '(last_hypb, sound) on every generated list by correspondence I. Axioms: none.'),
     },
     'C04': {
